@@ -296,6 +296,8 @@ def _generators():
                                                               tmin=0.0, tmax=1.0),
         "DataGeneratorObservations": lambda: DataGeneratorObservations(key, 3, **copy.deepcopy(obs)),
         "DataGeneratorParameter": lambda: DataGeneratorParameter(key, n, 3, {"a": (0.0, 1.0)}, "uniform", {"b": jnp.arange(n, dtype=float)}),
+        "DataGeneratorParameter[keys dict written nu, D]": lambda: DataGeneratorParameter(
+            dict(zip(("nu", "D"), jax.random.split(key))), n, 3, {"nu": (0.0, 1.0), "D": (10.0, 11.0)}, "uniform", {}),
         "DataGeneratorObservationsMultiPINNs": lambda: DataGeneratorObservationsMultiPINNs(
             3, {"u": obs["observed_pinn_in"], "v": None}, {"u": obs["observed_values"], "v": None},
             observed_eq_params_dict={"u": copy.deepcopy(obs["observed_eq_params"]), "v": {}}, key=key),
@@ -349,7 +351,9 @@ def _native_generator_witness(seed):
 
 # ---------------------------------------------------------------------------- mode equivalence (Engine B)
 
-def loss_modes(kind, system, mode, with_parts):
+def loss_modes(kind, system, mode, with_parts, eq_order=("a", "b")):
+    """eq_order: the order in which the caller wrote params.eq_params (jit rebuilds dictionaries in sorted key order, an
+    eager call sees them as written: the result is the same)"""
     def build():
         if system:
             S = Sys(kind, 2, 2)
@@ -361,7 +365,7 @@ def loss_modes(kind, system, mode, with_parts):
                     batch = eqx.tree_at(lambda b: b.param_batch_dict, batch, {"a": a["acol"]}, is_leaf=lambda x: x is None)
                 return loss, pd, batch
         else:
-            S = Scen(kind, B=2)
+            S = Scen(kind, B=2, eq_order=eq_order)
             extra = [Inp("acol", (2, 1))]
             names = S.names(extra=extra)
             inputs = S.inputs(extra=extra)
@@ -385,7 +389,8 @@ def loss_modes(kind, system, mode, with_parts):
         return dict(fn=variant, spec=spec, inputs=inputs)
     nm = ("System" if system else "") + {"ODE": "LossODE", "statio": "LossPDE" if system else "LossPDEStatio",
                                          "nonstatio": "LossPDE" if system else "LossPDENonStatio"}[kind]
-    return EqObligation(f"C20/modes/{nm}.evaluate[{kind},{mode}==eager,param_and_obs_parts={int(with_parts)}]", build,
+    return EqObligation(f"C20/modes/{nm}.evaluate[{kind},{mode}==eager,param_and_obs_parts={int(with_parts)}"
+                        f"{'' if tuple(eq_order) == ('a', 'b') else ',eq_params_written_' + '/'.join(eq_order)}]", build,
                         [(L if kind == "ODE" else PD) + nm + ".evaluate"])
 
 
@@ -425,6 +430,8 @@ def obligations(tier):
             for mode in ("jit", "value_and_grad"):
                 obs.append(loss_modes(kind, system, mode, True))
             obs.append(loss_modes(kind, system, "jit_call", False))
+        for mode in ("jit", "value_and_grad"):
+            obs.append(loss_modes(kind, False, mode, True, eq_order=("b", "a")))
     for name in _generators():
         for calls in ((0, 2) if tier == "quick" else (0, 1, 2, 3)):
             obs.append(generator_modes(name, calls))
